@@ -25,6 +25,10 @@ type fakeScript struct {
 	FaultName    string // "preanswer": the test name answered before (or without) being read
 	StdinFault   string
 	StdinFaultAt int
+	// AnswerCuts: every answer is written to the output in pieces, cut at these offsets of its frame
+	// (4-byte prefix + body); the pieces after the first are gates of their own, so the runner's
+	// reader sees each piece in a Read of its own.
+	AnswerCuts []int
 	// SyncStdin gives the input pipe io.Pipe's semantics: every Write (a zero-length one
 	// included) blocks until the client's reading side takes it (a gate of its own,
 	// "client.read") or until the pipe is closed, which fails the write.
@@ -64,6 +68,7 @@ type fakeProc struct {
 	faultBytes    bool           // some scripted fault wrote bytes to stdout
 	clean         map[string]int // answers emitted while the output stream was still well-formed
 	preanswered   string
+	outBusy       bool // an answer is on its way out in pieces: nothing else may write to the output in between
 	pendSet       bool           // SyncStdin: a Write is waiting to be taken
 	pend          []byte
 	pendCh        chan fakeWriteRes
@@ -115,6 +120,13 @@ func (fp *fakeProc) starter() processStarter {
 				gate.PointIf("client.fault."+fp.script.Fault, func() bool {
 					fp.mu.Lock()
 					defer fp.mu.Unlock()
+					if fp.outBusy {
+						switch fp.script.Fault {
+						case "exit0", "exit1", "stall", "closeout":
+						default:
+							return false // faults that write to the output do not cut into a message on its way out
+						}
+					}
 					return !fp.exited && fp.emittedN >= fp.script.FaultAt
 				})
 				fp.doFault()
@@ -171,7 +183,7 @@ func (fp *fakeProc) whenDone(action func(error)) {
 func (fp *fakeProc) stateKey() string {
 	fp.mu.Lock()
 	defer fp.mu.Unlock()
-	return fmt.Sprintf("bw=%d pend=%v/%x ", fp.blockedWrites, fp.pendSet, fp.pend) + fmt.Sprintf("in=%x/%d recv=%v out=%d emitlog=%x unread=%d fault=%v stall=%v sc=%v sb=%v ex=%v/%v ab=%v",
+	return fmt.Sprintf("bw=%d pend=%v/%x busy=%v ", fp.blockedWrites, fp.pendSet, fp.pend, fp.outBusy) + fmt.Sprintf("in=%x/%d recv=%v out=%d emitlog=%x unread=%d fault=%v stall=%v sc=%v sb=%v ex=%v/%v ab=%v",
 		fp.inbuf, fp.msgsWritten, fp.received, fp.outstanding, fp.emitLog, len(fp.outbuf), fp.faultDone, fp.stalled,
 		fp.stdinClosed, fp.stdinBroken, fp.exited, fp.exitErr, fp.aborted)
 }
@@ -423,7 +435,7 @@ func (fp *fakeProc) consume(p []byte) {
 			gate.PointIf("client.answer", func() bool {
 				fp.mu.Lock()
 				defer fp.mu.Unlock()
-				return !fp.stalled || fp.exited
+				return (!fp.stalled && !fp.outBusy) || fp.exited
 			})
 			fp.mu.Lock()
 			if fp.exited || fp.stalled || (fp.script.Fault == "preanswer" && fp.faultDone && fp.preanswered == req.TestName) {
@@ -443,20 +455,42 @@ func (fp *fakeProc) consume(p []byte) {
 				// the client does not exit on its own
 				return
 			}
+			b := frame(resp)
+			var cuts []int
+			for _, c := range fp.script.AnswerCuts {
+				if c > 0 && c < len(b) && (len(cuts) == 0 || c > cuts[len(cuts)-1]) {
+					cuts = append(cuts, c)
+				}
+			}
+			prev := 0
+			for _, c := range cuts {
+				fp.mu.Lock()
+				if fp.exited || fp.outClosed {
+					fp.outstanding--
+					fp.outBusy = false
+					fp.mu.Unlock()
+					return
+				}
+				fp.outBusy = true
+				fp.emitLocked(b[prev:c])
+				fp.mu.Unlock()
+				prev = c
+				gate.Point("client.answer.piece")
+			}
 			fp.mu.Lock()
 			defer fp.mu.Unlock()
+			fp.outBusy = false
 			fp.outstanding--
 			if fp.exited || fp.outClosed {
 				return
 			}
-			b := frame(resp)
 			fp.lastAnswer = b
 			fp.emitted[req.TestName]++
 			if !fp.faultBytes {
 				fp.clean[req.TestName]++
 			}
 			fp.emittedN++
-			fp.emitLocked(b)
+			fp.emitLocked(b[prev:])
 		})
 	}
 }
